@@ -634,3 +634,62 @@ def call_aggregate_obligations(repo, chk, rule, props, why):
         ok = cover["captures"] >= 1 and cover["captures"] == cover["children"] and not odd
         chk.ob(rule, f"selector.Call.{prop}:ranges-over-captures-and-children-alike", ok, fi.where,
                f"Call.{prop} looks at the captures and at the child calls the same number of times ({cover}{', other iterables ' + str(odd) if odd else ''}): {why}")
+
+
+def per_instance_state_obligations(repo, chk, rule, classes):
+    """The working state of a visitor (sets / dicts / lists it fills while walking one function) belongs to the instance: every attribute
+    the methods change in place, or read as a container, is assigned a fresh container in __init__, and the class body holds no mutable
+    container under that name.  A class-level set is shared by every instance of the process: what one function's analysis records
+    (its nested function names, its assigned names) leaks into the analysis of every function instrumented later."""
+    import ast
+    from ..core import norm, walk_local
+    for cq in classes:
+        cls = repo.cls(cq)
+        node = getattr(cls, "node", cls)
+        class_level = {}
+        for st in node.body:
+            if isinstance(st, (ast.Assign, ast.AnnAssign)):
+                tg = st.targets if isinstance(st, ast.Assign) else [st.target]
+                v = st.value
+                if v is not None and (isinstance(v, (ast.Set, ast.List, ast.Dict, ast.ListComp, ast.SetComp, ast.DictComp))
+                                      or (isinstance(v, ast.Call) and isinstance(v.func, ast.Name) and v.func.id in ("set", "list", "dict", "defaultdict", "Counter", "deque"))):
+                    for t in tg:
+                        if isinstance(t, ast.Name):
+                            class_level[t.id] = norm(st)[:50]
+        init = next((f for f in node.body if isinstance(f, ast.FunctionDef) and f.name == "__init__"), None)
+        init_attrs = {n.targets[0].attr for n in ast.walk(init) if isinstance(n, ast.Assign) and len(n.targets) == 1 and isinstance(n.targets[0], ast.Attribute)
+                      and isinstance(n.targets[0].value, ast.Name) and n.targets[0].value.id == "self"} if init else set()
+        mutated = set()
+        for f in node.body:
+            if not isinstance(f, ast.FunctionDef):
+                continue
+            for n in ast.walk(f):
+                if isinstance(n, ast.Call) and isinstance(n.func, ast.Attribute) and n.func.attr in MUTATING_METHODS and isinstance(n.func.value, ast.Attribute) \
+                        and isinstance(n.func.value.value, ast.Name) and n.func.value.value.id == "self":
+                    mutated.add(n.func.value.attr)
+                elif isinstance(n, ast.Subscript) and isinstance(n.ctx, (ast.Store, ast.Del)) and isinstance(n.value, ast.Attribute) and isinstance(n.value.value, ast.Name) \
+                        and n.value.value.id == "self":
+                    mutated.add(n.value.attr)
+                elif isinstance(n, ast.AugAssign) and isinstance(n.target, ast.Attribute) and isinstance(n.target.value, ast.Name) and n.target.value.id == "self":
+                    mutated.add(n.target.attr)
+        shared = sorted(a for a in mutated if a in class_level)
+        uninit = sorted(a for a in mutated if a not in init_attrs)
+        chk.ob(rule, f"{cq}:working-state-belongs-to-the-instance", bool(mutated) and not shared and not uninit, f"ptera/{cq.split('.')[0]}.py",
+               f"every container the methods of {cq.split('.')[-1]} fill ({', '.join(sorted(mutated))}) is created per instance in __init__"
+               + (f"; shared at class level: {[(a, class_level[a]) for a in shared]}" if shared else "")
+               + (f"; changed in place but not initialised in __init__: {uninit}" if uninit else ""))
+
+
+def fork_obligations(repo, chk, rule, why):
+    """Every accumulator class forks through BaseAccumulator.fork, and fork() returns a NEW accumulator on every path (a constructor call
+    of the same class): each matching call gets capture tables of its own.  An override or a path that hands back `self` makes calls share
+    one table -- the receiver, context values or condition operands of one call are then read by another."""
+    import ast
+    from ..core import norm, walk_local
+    from ..astq import returns_of
+    fk = repo.func("interpret.BaseAccumulator.fork")
+    rets = returns_of(fk.node)
+    fresh = bool(rets) and all(isinstance(r.value, ast.Call) and norm(r.value.func) in ("type(self)", "self.__class__") for r in rets)
+    overrides = sorted(q for q, f2 in repo.functions.items() if q.startswith("interpret.") and q.endswith(".fork") and q != fk.qual)
+    chk.ob(rule, "interpret:fork-always-makes-a-new-accumulator", fresh and not overrides, fk.where,
+           f"fork() returns type(self)(...) on every path ({[norm(r.value)[:40] for r in rets]}) and no accumulator class overrides it{(' -- overridden in ' + str(overrides)) if overrides else ''}: {why}")
